@@ -278,8 +278,9 @@ func (cr *CheckRun) CheckCorpusCompiles(corpusDir string) {
 			em := Generate(bin, ce, filepath.Join(cr.Scratch, "c01pkgs"))
 			out[i].name, out[i].gen = ce.Name, em.GenErr
 			if em.GenErr == nil {
-				cmd := exec.Command("go", "vet", "-vettool=/bin/true", ".")
-				_ = cmd
+				if os.Getenv("GOAGVC_RECORD_EMITTED") != "" {
+					recordEmittedNames(em.Dir)
+				}
 				b := exec.Command("go", "build", "./...")
 				b.Dir = em.Dir
 				b.Env = append(os.Environ(), goEnv...)
